@@ -2,7 +2,7 @@
 from harness import locs
 
 ID = "C17"
-MODULES = ["HeraProofs.Props.C17", "HeraProofs.Props.C07"]
+MODULES = ["HeraProofs.Props.C17", "HeraProofs.Props.C07", "HeraProofs.Props.C07b"]
 GENERATED_DEPS = []
 EXPLANATION = ("Theorems: C17_token_in_quoted_line (for every text pre ++ tok ++ post with no line break in tok: the (line, column) "
                "that next_char's accounting yields after pre names an existing line of text.split('\\n'), and that line continues "
@@ -13,7 +13,8 @@ EXPLANATION = ("Theorems: C17_token_in_quoted_line (for every text pre ++ tok ++
                "align_caret / evaluate_ifdefs(preserve_lines=True) on texts with every line-break-like character. Oracle: programs "
                "with one planted fault of 20 diagnostic kinds at a known token under layouts (tabs, comments, multi-line "
                "operations, same-line operations, CRLF, form feeds, kept / dead / else conditional blocks, includes): reported "
-               "file, line, column, quoted line and caret against the generator's positions.")
+               "file, line, column, quoted line and caret against the generator's positions."
+               " Lexer model (C07 / C07b): C17_token_is_text_at_offset (a token's value is the text at its offset), tokenAt_off and C17_offsets_in_order (in the token stream of any text the offsets never decrease and never pass the end of the text). Run-time diagnostics: 6 planted run-time fault kinds with look-alike operations; stream oploc: the operations of every loaded program carry, in order, exactly the positions they were written at.")
 ASSUMPTIONS = ["which token a diagnostic is attached to (operand vs operation name) and token start positions are decided by the "
                "planted-fault oracle on the real front end; the lexer's tokenisation is not modelled in Lean",
                "C17_ifdef_keeps_lines assumes that the scanner's segments partition the text; the model driver checks this for every "
